@@ -366,6 +366,34 @@ pub fn search(tier: &str, seed: u64, s: &mut Search) {
             let b = format!(r#"{hdr}{fx_defs}<g{attrs} transform="translate({x} {y}) matrix({sx} 0 0 {sy} {tx} {ty})">{content}</g></svg>"#);
             cmp(s, "nested-svg-with-effects==group", &a, &b, true);
         }
+        // a percentage size on a `use` of a symbol is a percentage of the viewport the `use` is in
+        {
+            let (pw, ph) = (*rng.pick(&[25, 40, 50, 75]), *rng.pick(&[25, 40, 50, 75]));
+            let a = format!(r##"{hdr}<defs><symbol id="ps" viewBox="0 0 10 10" preserveAspectRatio="none"><rect width="10" height="10" fill="teal"/><circle cx="3" cy="3" r="2"/></symbol></defs><use xlink:href="#ps" x="4" y="6" width="{pw}%" height="{ph}%"/></svg>"##);
+            // (hdr: a 120 x 100 document without a viewBox)
+            let b = format!(r##"{hdr}<defs><symbol id="ps" viewBox="0 0 10 10" preserveAspectRatio="none"><rect width="10" height="10" fill="teal"/><circle cx="3" cy="3" r="2"/></symbol></defs><use xlink:href="#ps" x="4" y="6" width="{}" height="{}"/></svg>"##, 120.0 * pw as f64 / 100.0, 100.0 * ph as f64 / 100.0);
+            cmp(s, "use-percent-size==absolute-size", &a, &b, true);
+        }
+        // the size of a `use` overrides the size of the svg it references - not of svg elements nested in that one
+        {
+            let (uw, uh) = (rng.range(90, 160), rng.range(90, 160));
+            let (iw, ih) = (rng.range(30, 70), rng.range(30, 70));
+            let (ix, iy) = (rng.range(2, 15), rng.range(2, 15));
+            let inner = format!(r#"<svg x="{ix}" y="{iy}" width="{iw}" height="{ih}"><rect width="300" height="300" fill="teal"/></svg>"#);
+            let a = format!(r##"{hdr}<defs><svg id="outer" width="60" height="60">{inner}</svg></defs><use xlink:href="#outer" width="{uw}" height="{uh}"/></svg>"##);
+            // the instance written out: an svg of the use's size around the unchanged inner svg
+            let b = format!(r##"{hdr}<g><svg width="{uw}" height="{uh}">{inner}</svg></g></svg>"##);
+            let o = crate::corpus::opts_for(None);
+            if let (Ok(ta), Ok(tb)) = (usvg::Tree::from_str(&a, &o), usvg::Tree::from_str(&b, &o)) {
+                if let (Some(pa), Some(pb)) = (crate::rend::render(&ta, 200, 200, resvg::tiny_skia::Transform::identity()), crate::rend::render(&tb, 200, 200, resvg::tiny_skia::Transform::identity())) {
+                    s.case("use-size-and-nested-svg", &a, true);
+                    let (ok, why) = crate::rend::similar(&pa, &pb, 2);
+                    if !ok {
+                        s.finding("oracle:expansion:use-size-leaks-into-nested-svg", &format!("differs from the written-out instance: {}", why), &a);
+                    }
+                }
+            }
+        }
         // a `use` whose target itself contains a `use` of one of the target's own descendants (a part defined inside
         // the group that reuses it) is not a cycle: it expands like any other
         {
